@@ -89,13 +89,21 @@ def start_by_paths(body, cfg, du, sl, succ):
     paths = enumerate_paths(cfg, 0, lambda blk: blk.idx in succ or blk.term.kind == "return", du=du, on_limit=lambda: hit.__setitem__(0, True))
     if hit[0]: return None
     def reads_params(a, need=()):
+        """the operand is (a reference into) the request's `parameters` member; `need`: downcasts that must appear on the way"""
         if a.place is None: return False
-        places = [a.place]
-        for l in ref_chain(du, a.place.l):
-            for k, d in du.value_defs(l):
-                if k == "stmt" and d.kind == "assign":
-                    places += ([d.rplace] if d.rplace is not None else []) + [o.place for o in d.ops if o.place is not None]
-        return any("parameters" in q.fields() and all(any(e.startswith(n) for e in q.p) for n in need) for q in places)
+        places = [a.place]; seen = set(); work = [a.place.l]
+        while work and len(seen) < 24:
+            l0 = work.pop()
+            if l0 in seen: continue
+            seen.add(l0)
+            for l in ref_chain(du, l0):
+                for k, d in du.value_defs(l):
+                    if k == "stmt" and d.kind == "assign" and d.rv in ("use", "ref", "cast"):
+                        qs = ([d.rplace] if d.rplace is not None else []) + [o.place for o in d.ops if o.place is not None]
+                        places += qs
+                        work += [q.l for q in qs]
+        if not any("parameters" in q.fields() for q in places): return False
+        return all(any(any(e.startswith(n) for e in q.p) for q in places) for n in need)
     def discr_taken(pth):
         """(place, label) of every discriminant switch along the path"""
         out = []
@@ -125,7 +133,12 @@ def start_by_paths(body, cfg, du, sl, succ):
             if nm == "is_none" and lit.truth and "Option" in t.callee.path and t.args and reads_params(t.args[0]): p_ok = True
             if nm == "is_empty" and lit.truth and t.args and reads_params(t.args[0], need=("as Some", "as Object")): p_ok = True
         for place, lab in discr_taken(pth):
-            if place.fields()[-1:] == ["parameters"] and not any(e.startswith("as ") for e in place.p) and lab == 0: p_ok = True     # None
+            q = place
+            if tuple(q.p) == ("*",):
+                # `match &request.parameters`: the discriminant is read through a reference to the member
+                ds = du.value_defs(q.l)
+                if len(ds) == 1 and ds[0][0] == "stmt" and ds[0][1].rv == "ref" and ds[0][1].rplace is not None: q = ds[0][1].rplace
+            if q.fields()[-1:] == ["parameters"] and not any(e.startswith("as ") for e in q.p) and lab == 0: p_ok = True     # None
         if not m_ok: no_method += 1
         if not p_ok: no_params += 1
     out = []
@@ -350,6 +363,32 @@ def step(cx, S, body):
     cx.check(not why, "C19.R1", "cert:%s:check-dominates" % S, site, "; ".join(why), note_ok="check==true dominates %s; check = (expected == received) else false" % what)
 
 
+def check_and_advance_by_paths(body, cfg, du, sl, cmp_call, adv_stmt):
+    from vlib import absval
+    from vlib.cfg import enumerate_paths
+    from vlib.pathcond import literals
+    hit = [False]
+    paths = enumerate_paths(cfg, 0, lambda blk: blk.term.kind == "return", du=du, on_limit=lambda: hit.__setitem__(0, True))
+    if hit[0]: return False
+    n = 0; n_true = 0
+    for p in paths:
+        if p[-1] < 0 or body.blocks[p[-1]].term.kind != "return": continue
+        n += 1
+        eq = None
+        for lit in literals(body, p):
+            if lit.kind == "call" and lit.obj is cmp_call: eq = lit.truth == (cmp_call.callee.name == "eq")
+        advanced = adv_stmt.bb in p
+        st = None
+        for kind, b, obj, store in absval.walk(body, du, cfg, p): st = store
+        v = st.get(0) if st else None
+        if v is None or v[0] != "int": return False
+        ret = bool(v[1])
+        if ret != (eq is True and advanced): return False
+        if advanced and eq is not True: return False
+        n_true += ret
+    return n > 0 and n_true > 0
+
+
 def r3(cx):
     ci = cx.mir.one(PKG, "CertInterface::check_client_id")
     cx.saw(ci)
@@ -373,7 +412,14 @@ def r3(cx):
     adv = [s for s in cc.stmts() if s.kind == "assign" and s.lhs.p and "*" in s.lhs.p and s.lhs.fields() and from_lookup(s.lhs.l)]
     trues = [s for s in cc.stmts() if s.kind == "assign" and s.lhs.l == 0 and s.rv == "use" and s.ops[0].is_const and s.ops[0].cint() == 1]
     why = []
-    if len(ne) != 1 or len(adv) != 1 or len(trues) != 1: why.append("expected one comparison of context.test, one advance and one `true` (found %d/%d/%d)" % (len(ne), len(adv), len(trues)))
+    if (len(ne) != 1 or len(adv) != 1 or len(trues) != 1) and len(ne) == 1 and len(adv) == 1 and check_and_advance_by_paths(cc, ccfg, cdu, csl, ne[0], adv[0]):
+        # the answer is computed (`.filter(..).map(..).is_some()`): decided on the paths — true is returned exactly on the paths that
+        # found the step equal and advanced it
+        if not any(k == "arg" and o == 4 for k, o in Slice(cc, cdu, extra_pass=("=into",)).origins(adv[0].ops[0])): why.append("the step is not advanced to next_test")
+        if not any(k == "arg" and o == 3 for a in ne[0].args for k, o in csl.origins(a)): why.append("the comparison is not against the expected step")
+        gm = cc.calls("=get_mut") + cc.calls("=get")
+        if not gm or not any(k == "arg" and o == 2 for k, o in csl.origins(gm[0].args[1])): why.append("the context is not looked up by the client id")
+    elif len(ne) != 1 or len(adv) != 1 or len(trues) != 1: why.append("expected one comparison of context.test, one advance and one `true` (found %d/%d/%d)" % (len(ne), len(adv), len(trues)))
     else:
         for b in cc.blocks:
             if b.cleanup or b.term.kind != "switch": continue
